@@ -48,6 +48,7 @@ def sigma(lay, i):
     return [
         ('memzone', 'za'), ('memzone', 'zb'), ('memzone', 'GLOBAL'),
         ('org', 1, 'za'), ('org', 0, 'zb'), ('org', za[1] - za[0], 'za'), ('org', 6, None), ('org', 1, 'GLOBAL'),
+        ('org', -1, 'za'),          # a negative zone-relative origin: below the zone, mostly still inside GLOBAL
         ('data', 1, [m]), ('data', 1, [m, m + 1, m + 2]),
         ('zerountil', za[1]), ('zerountil', za[1] + 1),
         ('align', 4),
@@ -55,7 +56,7 @@ def sigma(lay, i):
     ]
 
 
-NSYM = 14
+NSYM = 15
 
 
 def included(i):
@@ -66,7 +67,7 @@ def included(i):
 def meta(tier):
     q = tier == 'quick'
     return {
-        'rule': 'every program over the 14-symbol zone alphabet up to the depth bound under 6 zone layouts (predefined / created in '
+        'rule': 'every program over the 15-symbol zone alphabet up to the depth bound under 6 zone layouts (predefined / created in '
                 'source, default / redefined GLOBAL, nested / overlapping / adjacent zones, zones at the top of a 5-bit address '
                 'space), plus every ill-formed declaration from the grid; expected: image of the reference layout, or rejection '
                 'iff a byte would lie outside its selected zone or GLOBAL (or two lines collide); non-trivial = program that '
